@@ -29,6 +29,10 @@ fn quick_requests() -> Vec<ReqSpec> {
         req("POST", "1.1", ReqFraming::Length(3), 3, true, false, false),
         req("POST", "1.1", ReqFraming::Default, 3, true, false, false),
         req("POST", "1.0", ReqFraming::Length(3), 3, true, true, false),
+        // an Expect header on a request without a body (e.g. inherited by a redirected GET): nothing to await
+        req("GET", "1.1", ReqFraming::Default, 0, true, false, false),
+        // body-less method converted with send-body-despite-method, default (chunked) framing
+        req("DELETE", "1.1", ReqFraming::Default, 3, false, false, true),
     ]
 }
 
@@ -89,6 +93,8 @@ fn finals(tier: Tier) -> Vec<(u16, &'static str, Vec<(&'static str, &'static str
         (302, "1.1", vec![("Location", "/n"), ("Location", "/m")], ch1.clone()),
         // a non-redirect status that carries a Location header (201 Created)
         (201, "1.1", vec![("Location", "/created/1"), ("X-After", "1")], BodySpec::Length(b"ok".to_vec())),
+        // both framing headers: chunked wins on HTTP/1.1
+        (200, "1.1", vec![("Content-Length", "3")], ch1.clone()),
     ];
     if tier.thorough() {
         v.extend(vec![
